@@ -53,7 +53,7 @@ PROPS = {
             "level": "proof"},
     "C02": {"targets": [LANM + "_Packet._timestamp", LANM + "_Packet.encode", LANM + "_Packet.decode", LANM + "_Packet.decode#interop"],
             "level": "proof"},
-    "C03": {"targets": [LANM + "_Packet.decode", LANM + "_Packet.decode#truncated", LANM + "_Packet.decode#interop",
+    "C03": {"targets": [LANC + "._read", LANM + "_Packet.decode", LANM + "_Packet.decode#truncated", LANM + "_Packet.decode#interop",
                         LANM + "_Packet.decode#signature_tamper", LANM + "_Packet.decode#marker_tamper"],
             "level": "proof"},
     "C04": {"targets": [V3 + ".__init__", V3 + ".data_received", V3 + ".read"], "level": "proof"},
